@@ -178,6 +178,8 @@ def c08_idl(rng):
     for nm in rng.sample(["M", "Ping", "Get9"], rng.choice([1, 2, 3])):
         members.append(("M", nm, "", c08_struct(rng, 2, aliases), c08_struct(rng, 2, aliases)))
     members.append(("M", "Unimpl", "", ("S", []), ("S", [])))
+    # always: a method all of whose inputs are optional (nothing HAS to be sent, but what is sent must still decode)
+    members.append(("M", "AllOpt", "", ("S", [("limit", ("Q", ("i",))), ("tag", ("Q", ("s",)))]), ("S", [("n", ("Q", ("i",)))])))
     for nm in rng.sample(["E1", "NotFound"], rng.choice([1, 2])):
         members.append(("X", nm, "", rng.choice([None, c08_struct(rng, 1, aliases), c08_struct(rng, 2, aliases)])))
     iface = rng.choice(["a.b", "org.example.more", "com.example.a-b.c1", "io.Test.x"])
